@@ -107,6 +107,9 @@ def rule_flushall(ctx, prop):
     n += 1
     for s in ucalls:
         conds = pr.control_conditions(s, dbf.node)
+        # (the accepted equal-height no-op guard, passed on the way, is decided by the clause above)
+        conds = [(t, b, p_) for t, b, p_ in conds
+                 if not (not b and isinstance(p_, ast.If) and any(q.cmp_matches(ctx, dbf, t, a_) for a_ in accepted))]
         extra = [norm(t) for t, b, _p in conds if not (b and isinstance(t, ast.Name) and t.id == fu)]
         ctx.check(any(b and isinstance(t, ast.Name) and t.id == fu for t, b, _p in conds) and not extra, rule, ctx.key(dbf, s),
                   f'the UTXO flush is controlled by the `{fu}` parameter alone',
